@@ -48,7 +48,13 @@ THEOREMS = ['C07_plane_intersection_on_both', 'C07_plane_intersection_direction'
             'C07_hex_adjacency_geometry', 'C07_hex_base_vectors',
             'C07_base_vector_carries_opposite_plane',
             'C07_regular_hexagon_in_family', 'C07_domain_check_spec',
-            'C07_domain_check_error', 'C07_lattice_vector']
+            'C07_domain_check_error', 'C07_lattice_vector',
+            'C07_rhp_cell_hypotheses', 'C07_rhp15_lattice_vectors',
+            'C07_rhp9_lattice_vectors', 'C07_hex_lattice_developed',
+            'C07_base_vectors_wrong_count', 'C07_intersection_error_iff',
+            'C07_sort_sides_outcomes', 'C07_base_vectors_parallel_planes',
+            'C07_collinear_sides_parallel', 'C07_walk_ends_iff_closed_tour',
+            'C07_sort_count_error']
 TRUSTED = [
     'hand-written model coq/C07/Model.v (modelled, tied by execution only)',
     'binary64 evaluation: the theorems are over R; the model is run at '
@@ -109,6 +115,14 @@ TIE_MODEL = {
                'domain_check (fst (fst c)) (snd (fst c))'),
     'latvec': ('list fvec * list Z * fvec', 'check_latvec',
                'latticeVector FS (fst (fst c)) (snd (fst c))'),
+    'rhpcell': ('list float * res (list fsurf)', 'check_rhp_cell',
+                'rhp_cell_surfaces FS (fst c)'),
+    'planecell': ('list (nat * (float * float * float * float)) * list Z '
+                  '* res (list fsurf)', 'check_plane_cell',
+                  'tt'),
+    'rotate': ('fvec * fvec * float * fvec', 'check_rotate',
+               'rotate FS (fst (fst (fst c))) (snd (fst (fst c))) '
+               '(snd (fst c))'),
     'proj': ('fvec * fplane * fvec * res fvec', 'check_proj',
              'projectPointOnPlane FS (fst (fst (fst c))) (snd (fst (fst c))) '
              '(snd (fst c))'),
@@ -186,6 +200,79 @@ def walk_on_fake_adjacency(LT, pairs, first):
         signal.setitimer(signal.ITIMER_VIRTUAL, 0)
         signal.signal(signal.SIGVTALRM, old)
         LT.hexSortSides = real
+
+
+class SurfaceSpy:
+    """Records the argument of every call of hexLatticeBaseVectors made by
+    develop_lattice while the context is active."""
+
+    def __init__(self):
+        self.captured = []
+        self.real = None
+
+    def __enter__(self):
+        from t4_geom_convert.Kernel.Volume import CellConversion as CC
+        self.captured = []
+        self.real = CC.hexLatticeBaseVectors
+
+        def spy(surfaces):
+            self.captured.append(
+                [((tuple(float(x) for x in pl[0]),
+                   tuple(float(x) for x in pl[1])), int(side))
+                 for pl, side in surfaces])
+            return self.real(surfaces)
+        CC.hexLatticeBaseVectors = spy
+        return self
+
+    def __exit__(self, *exc):
+        from t4_geom_convert.Kernel.Volume import CellConversion as CC
+        CC.hexLatticeBaseVectors = self.real
+        return False
+
+
+def csurfs(surfs):
+    return clist(csurf(s) for s in surfs)
+
+
+def plane_cards_of(deck):
+    """(kind, (A, B, C, D)) of the plane cards 301.. of a generated deck, as
+    cards 1.., and the literals of the lattice cell renumbered likewise."""
+    kinds = {'p': 0, 'px': 1, 'py': 2, 'pz': 3}
+    cards = []
+    for card in deck['surfaces']:
+        if card['id'] >= 900:
+            continue
+        prm = [float(v) for v in card['params']] + [0.0, 0.0, 0.0]
+        cards.append((kinds[card['mn']], tuple(prm[:4])))
+    lat = next(c for c in deck['cells'] if c.get('lat'))
+    ids = [(abs(e[1]) - 300) * (1 if e[1] > 0 else -1) for e in lat['expr'][1:]]
+    return cards, ids
+
+
+def rhp_card_deck(rng):
+    """A LAT=2 cell bounded by one RHP/HEX card with 9 or 15 entries (a valid
+    regular / irregular prism), or a malformed card: wrong count, zero height,
+    zero r."""
+    import deck as deckmod
+    want9 = rng.random() < 0.45
+    while True:
+        deck, _meta = gen_deck(rng, style='rhp')
+        if not _meta['moved'] and (
+                not want9 or len(deck['surfaces'][0]['params']) == 9):
+            break
+    card = deck['surfaces'][0]
+    params = list(card['params'])
+    roll = rng.random()
+    if roll < 0.12:
+        params = params[:rng.choice([6, 8, 10, 12, 14])]
+    elif roll < 0.2:
+        params[3:6] = [0.0, 0.0, 0.0]
+    elif roll < 0.26:
+        params[6:9] = [0.0, 0.0, 0.0]
+    if rng.random() < 0.3:
+        card['mn'] = 'hex'
+    card['params'] = params
+    return [float(v) for v in params], deckmod.render(deck)
 
 
 def convert_watchdog(text, secs=30.0):
@@ -352,6 +439,11 @@ def gen_deck(rng, style=None):
             array.append(1)
         else:
             array.append(10 + k)
+    if not any(u >= 10 for u in array):
+        # a lattice none of whose elements holds a filler universe leaves
+        # nothing to convert (construct_volume_t4 then fails on an empty
+        # max(): a corner outside this property, see notes/C07.md)
+        array[0] = 10
     cells = []
     reach = 0.0
     all_vecs = list(vecs) + ([np.zeros(3)] if len(vecs) == 2 else [])
@@ -683,9 +775,13 @@ def run(res, tier, seed, proofs_ok):
                                'observed': repr(out)}, found_input=True)
         if out[0] == 'ok' and not finite(out[1]):
             continue     # nan/inf out of a malformed input: class only
-        base_cases.append(cpair(clist(csurf(s) for s in surfs),
-                                cres(out, lambda v: clist(cvec(x) for x in v))))
-        base_meta.append(surfs)
+        if not quick or num % 2 == 0 or fault is not None:
+            # (the sweep above checks every prism on the implementation; in the
+            # quick tier the model is run on every second admissible one)
+            base_cases.append(cpair(
+                clist(csurf(s) for s in surfs),
+                cres(out, lambda v: clist(cvec(x) for x in v))))
+            base_meta.append(surfs)
         if num % 3 == 0 or fault is not None:
             first = rng.randrange(6) if rng.random() < 0.95 else rng.choice([6, 7])
             vout = guarded(LT.hexVertices, surfs, first)
@@ -705,7 +801,7 @@ def run(res, tier, seed, proofs_ok):
                                                  'listing': listing},
                                        'observed': repr(vout)},
                                       found_input=True)
-        if num % 5 == 0 or fault is not None:
+        if num % (8 if quick else 5) == 0 or fault is not None:
             six = surfs[:6] if rng.random() < 0.9 else surfs
             sout = guarded(LT.hexSortSides, six)
             if sout[0] == 'err' or finite(sout[1]):
@@ -896,7 +992,7 @@ def run(res, tier, seed, proofs_ok):
          proj_cases, proj_meta, 'projectPointOnPlane FS'),
     ]
     _stage('walk cases')
-    for tie, fname, ctype, cfun, cases, meta, what in ties:
+    def run_tie(tie, fname, ctype, cfun, cases, meta, what):
         bad, errs = common.run_case_files(fname, HEADER, ctype, cfun, cases)
         _stage('coq tie ' + tie)
         res.obligation(f'tie:{tie} ({len(cases)} cases: model {what} = '
@@ -917,9 +1013,14 @@ def run(res, tier, seed, proofs_ok):
                            'theorem_or_correspondence': 'tie:' + tie},
                           found_input=False)
 
+    for entry in ties:
+        run_tie(*entry)
+
     # ---------------- whole conversions ----------------
     n_checked = 0
     deck_hangs = 0
+    spy = SurfaceSpy()
+    rhp_cases, rhp_meta, pc_cases, pc_meta = [], [], [], []
     for num in range(n_decks):
         if deck_hangs >= 2:
             break
@@ -929,7 +1030,25 @@ def run(res, tier, seed, proofs_ok):
         res.count('deck:' + meta['style'])
         if meta['moved']:
             res.count('deck moved:' + meta['moved'])
-        conv = convert_watchdog(text, 15.0)
+        with spy:
+            conv = convert_watchdog(text, 15.0)
+        if (meta['moved'] in (None, 'container-fill-tr')
+                and len(spy.captured) == 1):
+            # the (plane, side) list develop_lattice handed to
+            # hexLatticeBaseVectors, against the model of the cards
+            got = ('ok', spy.captured[0])
+            if meta['style'] == 'rhp':
+                params = deck['surfaces'][0]['params']
+                rhp_cases.append(cpair(clist(cfloat(v) for v in params),
+                                       cres(got, csurfs)))
+                rhp_meta.append(params)
+            else:
+                cards, ids = plane_cards_of(deck)
+                pc_cases.append(cpair(
+                    clist(cpair(cnat(k), cpair(*(cfloat(v) for v in q)))
+                          for k, q in cards),
+                    clist(cz(i) for i in ids), cres(got, csurfs)))
+                pc_meta.append((cards, ids))
         if conv.exc == 'Hang':
             deck_hangs += 1
         if not conv.ok or conv.text is None:
@@ -965,6 +1084,50 @@ def run(res, tier, seed, proofs_ok):
                                      'point': first['point']},
                            'failures': failures[:5]}, found_input=True)
     _stage('deck sweep')
+    # RHP cards on their own: 9 and 15 entries, wrong counts, zero height
+    for _ in range(40 if quick else 300):
+        params, text = rhp_card_deck(rng)
+        with spy:
+            conv = convert_watchdog(text, 15.0)
+        res.seen(text)
+        if len(spy.captured) == 1:
+            got = ('ok', spy.captured[0])
+        elif conv.exc == 'MacroBodyError':
+            got = ('err', 'EMacro')
+        elif conv.exc == 'ZeroDivisionError':
+            got = ('err', 'EZeroDiv')
+        else:
+            got = ('err', 'EOther')
+        res.count(f'rhp card {len(params)} entries: '
+                  + (got[1] if got[0] == 'err' else 'surfaces'))
+        rhp_cases.append(cpair(clist(cfloat(v) for v in params),
+                               cres(got, csurfs)))
+        rhp_meta.append(params)
+    rot_cases, rot_meta = [], []
+    for _ in range(100):
+        vec = tuple(rng.uniform(-3, 3) for _ in range(3))
+        axis = tuple(rng.choice([0.0, 1.0, rng.uniform(-1, 1)])
+                     for _ in range(3))
+        if not any(axis):
+            axis = (0.0, 0.0, 1.0)
+        if rng.random() < 0.8:
+            axis = VU.renorm(axis)
+        angle = rng.choice([np.pi / 3., 2. * np.pi / 3., rng.uniform(-7, 7)])
+        got = VU.rotate(vec, axis, float(angle))
+        rot_cases.append(cpair(cvec(vec), cvec(axis), cfloat(float(angle)),
+                               cvec(got)))
+        rot_meta.append((vec, axis, float(angle)))
+    run_tie('rhpcell', 'c07_rhpcell', TIE_MODEL['rhpcell'][0],
+            'check_rhp_cell', rhp_cases, rhp_meta,
+            'rhp_cell_surfaces FS (MacroBodies.rhp + forcad.p + '
+            'extract_surfaces, observed at the call of hexLatticeBaseVectors)')
+    run_tie('planecell', 'c07_planecell', TIE_MODEL['planecell'][0],
+            'check_plane_cell', pc_cases, pc_meta,
+            'extract_surfaces over forcad.p/px/py/pz (observed at the call '
+            'of hexLatticeBaseVectors)')
+    run_tie('rotate', 'c07_rotate', TIE_MODEL['rotate'][0], 'check_rotate',
+            rot_cases, rot_meta, 'rotate FS')
+    _stage('surface-list ties')
     res.count('deck points checked', n_checked)
     res.obligation(f'sweep: {n_decks} LAT=2 decks, {n_checked} points located '
                    'with the reference semantics', n_checked > 20 * n_decks,
